@@ -46,6 +46,13 @@ func (c *Ctx) setupClassInvariants() {
 	tn := c.typeObj("postscript", "scanner")
 	T := tn.Type().(*types.Named)
 	key := func(role string) string { return c.fldKey(role) }
+	for _, role := range []string{"scanner.pos", "scanner.used", "scanner.buf"} {
+		if _, ok := c.fldOpt(role); !ok {
+			// the buffer is not represented by a cursor and a fill level: there is no such invariant
+			// to establish or to use; the index expressions are decided without it
+			return
+		}
+	}
 	pos, used, buf := key("scanner.pos"), key("scanner.used"), key("scanner.buf")
 	ci := &classInv{id: "scanner-buffer", T: T, fields: []string{pos, used, buf}, isLen: map[string]bool{buf: true}}
 	ci.rels = []classInvRel{
